@@ -509,11 +509,22 @@ fn signature_fragments(p: &Pkg, f: usize, d: usize) -> Vec<String> {
     }
     _ => {}
   }
-  if matches!(decl.kind, DK::Class | DK::AbstractClass) && decl.variant % 2 == 0 {
+  if matches!(decl.kind, DK::Class | DK::AbstractClass)
+    && let Some(cs) = src.find(&format!("class {}", decl.name)).or_else(|| src.find("export default class"))
+  {
+    let class_text = &src[cs..];
+    let class_text = &class_text[..class_text.find("\n}\n").unwrap_or(class_text.len())];
     // public parameter properties become declared properties with the
     // annotation the source wrote
-    out.push("declare level: number | string;".to_string());
-    out.push("declare readonly tag: \"a\" | \"b\";".to_string());
+    if class_text.contains("  constructor(public param:") {
+      out.push("declare level: number | string;".to_string());
+      out.push("declare readonly tag: \"a\" | \"b\";".to_string());
+    }
+    // also when the constructor has overload signatures and the implementation declares them
+    if class_text.contains("  constructor(public px: any, readonly py?: any)") {
+      out.push("declare px: any;".to_string());
+      out.push("declare readonly py?: any;".to_string());
+    }
   }
   out
 }
